@@ -2509,8 +2509,8 @@ class ArrayWriter:
             nlines = array.size
 
         max_lens = {}
-        for name in fields:
-            max_lens[name] = len(name)
+        for name, pname in zip(fields, printnames):
+            max_lens[name] = len(pname)
 
         # first pass through data to get lengths
 
